@@ -137,9 +137,10 @@ Definition outcome_eqb (a b : outcome) : bool :=
 Record item := mkI {
   i_ts : Z;     (* Sample.timestamp *)
   i_id : Z;     (* identity of the sample (its value in the harness) *)
-  i_kind : Z    (* 0 = a number, 1 = value None, 2 = NaN *)
+  i_kind : Z    (* 0 = a number, 1 = value None, 2 = NaN; 3 = +inf, 4 = -inf, 5 = huge: valid values *)
 }.
-Definition item_valid (x : item) : bool := i_kind x =? 0.
+(* `sample.value is not None and not sample.value.isnan()`: infinities are kept *)
+Definition item_valid (x : item) : bool := negb ((i_kind x =? 1) || (i_kind x =? 2)).
 Definition item_eqb (a b : item) : bool :=
   (i_ts a =? i_ts b) && (i_id a =? i_id b) && (i_kind a =? i_kind b).
 
